@@ -17,7 +17,14 @@ import (
 	"golang.org/x/tools/go/ssa/ssautil"
 )
 
-const repoDir = "/repo"
+// repoDir is the tree under test: /repo, or a scratch worktree when seeded
+// changes are tried (SYMGO_REPO).
+var repoDir = func() string {
+	if d := os.Getenv("SYMGO_REPO"); d != "" {
+		return d
+	}
+	return "/repo"
+}()
 
 var loadPatterns = []string{".", "./pkg/cl", "./pkg/generic", "./pkg/flavors", "./pkg/clos", "./pkg/gi", "./pkg/bag", "./pkg/repl", "./pkg/swank", "./pp"}
 
